@@ -48,7 +48,8 @@ def evaluate(ctx, progs):
         if len(f) >= 4:
             res[f[0]] = f[1:] + [""] * (5 - len(f[1:]))
     n = {"EQ": 0, "EQT": 0, "DIFF": 0, "UNSUPPORTED": 0}
-    n_in = n_out = 0
+    n_in = n_out = n_from_mono = 0
+    agree_m = definite_m = 0
     reasons, by_stream = {}, {}
     agree = definite_in = 0
     diffs, samples_out, samples_in = [], [], []
@@ -88,6 +89,19 @@ def evaluate(ctx, progs):
                                             f"{pid}: in InPipeFragment, model ANF = real ANF, Sem(core)={oc[0]} Sem(anf)={oa[0]}"))
         else:
             n_out += 1
+            if infrag == "IN-FROM-MONO":
+                # fragment of `pipeline_preserves_partial`: chain from the Mono program on
+                n_from_mono += 1
+                bs["in_fragment_from_mono"] = bs.get("in_fragment_from_mono", 0) + 1
+                o = progs[pid].get("out") or {}
+                om, oa = o.get("mono"), o.get("anf")
+                if om and oa and definite(om[0]):
+                    definite_m += 1
+                    if (om[0], om[1], om[2]) == (oa[0], oa[1], oa[2]):
+                        agree_m += 1
+                    elif verdict in ("EQ", "EQT"):
+                        ctx.broken_ties.append(("pipeline_preserves_partial contradicted by evaluation",
+                                                f"{pid}: in InLiftAnfFragment, model = real dumps, Sem(mono)={om[0]} Sem(anf)={oa[0]}"))
             for w in [x for x in why.split(";") if x.strip()] or ["?"]:
                 k = reason_class(w)
                 reasons[k] = reasons.get(k, 0) + 1
@@ -100,10 +114,14 @@ def evaluate(ctx, progs):
         "eq_up_to_type_annotation_of_a_temporary(C09 EQT)": n["EQT"],
         "diff": n["DIFF"], "unsupported(model mono out of fuel or panicking)": n["UNSUPPORTED"],
         "in_InPipeFragment": n_in, "outside_InPipeFragment": n_out,
+        "outside_but_in_InLiftAnfFragment(pipeline_preserves_partial, chain from Mono)": n_from_mono,
+        "outside_both": n_out - n_from_mono,
         "outside_reasons(first failing check per conjunct)": dict(sorted(reasons.items(), key=lambda kv: -kv[1])),
         "by_stream": by_stream,
         "in_fragment_with_definite_core_run": definite_in,
         "of_those_real_anf_outcome_equals_core_outcome": agree,
+        "from_mono_fragment_with_definite_mono_run": definite_m,
+        "of_those_real_anf_outcome_equals_mono_outcome": agree_m,
         "samples_inside": samples_in, "samples_outside": samples_out, "diff_samples": diffs[:5],
     })
     return cov
